@@ -207,3 +207,144 @@ func VerifC15_BalancePlan() {
 		used[mv.to]++
 	}
 }
+
+// C15 (balance plan with replicated volumes): a cluster of four servers on three racks (A and D on r1,
+// B on r2, C on r3) built as a master topology snapshot and read through the real
+// collectVolumeServersByDc / collectVolumeReplicaLocations; two unreplicated volumes anywhere and one
+// volume with replication 010 on any two servers in different racks. Every step of the plan keeps the
+// replicated volume on two servers in different racks, moves a copy that is where the plan thinks it
+// is, and goes to a server with a free slot that does not hold the volume.
+func VerifC15_BalancePlanReplicated() {
+	type srv struct{ rack, id string }
+	servers := []srv{{"r1", "A"}, {"r1", "D"}, {"r2", "B"}, {"r3", "C"}}
+	disk := map[string]*master_pb.DiskInfo{}
+	max := map[string]int{}
+	for _, s := range servers {
+		m := 2 + rt.Choice("slots", 2)
+		disk[s.id] = &master_pb.DiskInfo{MaxVolumeCount: uint64(m)}
+		max[s.id] = m
+	}
+	holds := map[string]map[uint32]bool{"A": {}, "B": {}, "C": {}, "D": {}}
+	place := func(vid uint32, rp uint32, id string) {
+		disk[id].VolumeInfos = append(disk[id].VolumeInfos, &master_pb.VolumeInformationMessage{Id: vid, Size: 10, ReplicaPlacement: rp})
+		disk[id].VolumeCount++
+		holds[id][vid] = true
+	}
+	place(1, 0, servers[rt.Choice("v1", 4)].id)
+	place(3, 0, servers[rt.Choice("v3", 4)].id)
+	pairs := [][2]string{{"A", "B"}, {"A", "C"}, {"D", "B"}, {"D", "C"}, {"B", "C"}}
+	pr := pairs[rt.Choice("v2", 5)]
+	place(2, 10, pr[0])
+	place(2, 10, pr[1])
+	for _, s := range servers {
+		rt.Assume(int(disk[s.id].VolumeCount) <= max[s.id])
+	}
+	rackInfo := func(rack string) *master_pb.RackInfo {
+		r := &master_pb.RackInfo{Id: rack}
+		for _, s := range servers {
+			if s.rack == rack {
+				r.DataNodeInfos = append(r.DataNodeInfos, &master_pb.DataNodeInfo{Id: s.id, DiskInfos: map[string]*master_pb.DiskInfo{"": disk[s.id]}})
+			}
+		}
+		return r
+	}
+	topo := &master_pb.TopologyInfo{DataCenterInfos: []*master_pb.DataCenterInfo{{Id: "dc1", RackInfos: []*master_pb.RackInfo{rackInfo("r1"), rackInfo("r2"), rackInfo("r3")}}}}
+	nodes := collectVolumeServersByDc(topo, "")
+	replicas, _ := collectVolumeReplicaLocations(topo)
+	verifMoves = nil
+	err := balanceVolumeServersByDiskType(nil, "", replicas, nodes, 1000, "ALL_COLLECTIONS", false)
+	rt.Cover("planned")
+	rt.Assert(err == nil, "planning-succeeds")
+	rackOf := map[string]string{"A": "r1", "D": "r1", "B": "r2", "C": "r3"}
+	used := map[string]int{}
+	for id, h := range holds {
+		used[id] = len(h)
+	}
+	for _, mv := range verifMoves {
+		rt.Assert(holds[mv.from][mv.vid], "moved-volume-is-on-its-source")
+		rt.Assert(!holds[mv.to][mv.vid], "move-target-holds-no-copy-of-the-volume")
+		rt.Assert(used[mv.to] < max[mv.to], "move-target-has-a-free-slot")
+		delete(holds[mv.from], mv.vid)
+		holds[mv.to][mv.vid] = true
+		used[mv.from]--
+		used[mv.to]++
+		var racks []string
+		for _, s := range servers {
+			if holds[s.id][2] {
+				racks = append(racks, rackOf[s.id])
+			}
+		}
+		rt.Assert(len(racks) == 2 && racks[0] != racks[1], "replicated-volume-stays-on-two-racks")
+	}
+}
+
+// C15 (plan bookkeeping, one step): recording a planned move changes the recorded location of the moved
+// volume's copy on the source server and of nothing else - the later decisions of the same plan
+// (isGoodMove, satisfyReplicaPlacement) read these records. The replica records are built by the
+// real collectVolumeReplicaLocations.
+func VerifC15_AdjustAfterMove() {
+	ids := []string{"A", "D", "B", "C"}
+	racks := map[string]string{"A": "r1", "D": "r1", "B": "r2", "C": "r3"}
+	disk := map[string]*master_pb.DiskInfo{}
+	for _, id := range ids {
+		disk[id] = &master_pb.DiskInfo{MaxVolumeCount: 5}
+	}
+	nvol := rt.Param("volumes", 2)
+	where := map[uint32][]string{}
+	for v := uint32(1); v <= uint32(nvol); v++ {
+		first := rt.Choice("first", 4)
+		where[v] = append(where[v], ids[first])
+		if rt.Bool("replicated") {
+			second := rt.Choice("second", 4)
+			rt.Assume(second != first)
+			where[v] = append(where[v], ids[second])
+		}
+		for _, id := range where[v] {
+			disk[id].VolumeInfos = append(disk[id].VolumeInfos, &master_pb.VolumeInformationMessage{Id: v, Size: 10})
+		}
+	}
+	rackInfo := func(rack string) *master_pb.RackInfo {
+		r := &master_pb.RackInfo{Id: rack}
+		for _, id := range ids {
+			if racks[id] == rack {
+				r.DataNodeInfos = append(r.DataNodeInfos, &master_pb.DataNodeInfo{Id: id, DiskInfos: map[string]*master_pb.DiskInfo{"": disk[id]}})
+			}
+		}
+		return r
+	}
+	topo := &master_pb.TopologyInfo{DataCenterInfos: []*master_pb.DataCenterInfo{{Id: "dc1", RackInfos: []*master_pb.RackInfo{rackInfo("r1"), rackInfo("r2"), rackInfo("r3")}}}}
+	nodes := collectVolumeServersByDc(topo, "")
+	replicas, _ := collectVolumeReplicaLocations(topo)
+	byId := map[string]*Node{}
+	for _, n := range nodes {
+		n.selectVolumes(func(v *master_pb.VolumeInformationMessage) bool { return true })
+		byId[n.info.Id] = n
+	}
+	moved := uint32(1 + rt.Choice("moved", nvol))
+	from := where[moved][rt.Choice("fromcopy", len(where[moved]))]
+	to := ids[rt.Choice("to", 4)]
+	for _, id := range where[moved] {
+		rt.Assume(id != to)
+	}
+	adjustAfterMove(byId[from].selectedVolumes[moved], replicas, byId[from], byId[to])
+	rt.Cover("recorded")
+	for v, locs := range where {
+		var want []string
+		for _, id := range locs {
+			if v == moved && id == from {
+				id = to
+			}
+			want = append(want, id)
+		}
+		rt.Assert(len(replicas[v]) == len(want), "replica-records-keep-their-count")
+		for _, id := range want {
+			found := false
+			for _, r := range replicas[v] {
+				if r.location.dataNode.Id == id && r.location.rack == racks[id] && r.location.dc == "dc1" {
+					found = true
+				}
+			}
+			rt.Assert(found, "planned-move-changes-only-the-moved-copy-in-the-records")
+		}
+	}
+}
